@@ -22,5 +22,5 @@ func Unmarshal(msg string) (action, address, id string, ok bool) {
 	return peer.VerifUnmarshal(msg)
 }
 func AdoptClock(p *RedisPubsubPeers, c clockwork.Clock) { peer.VerifAdoptClock(p, c) }
-func NotifiedHash(p *RedisPubsubPeers) uint64          { return peer.VerifNotifiedHash(p) }
-func Table(p *RedisPubsubPeers, now time.Time) string  { return peer.VerifTable(p, now) }
+func NotifiedHash(p *RedisPubsubPeers) uint64           { return peer.VerifNotifiedHash(p) }
+func Table(p *RedisPubsubPeers, now time.Time) string   { return peer.VerifTable(p, now) }
